@@ -313,7 +313,12 @@ class EngineBase:
         ent = self.spec.entities.get(cls)
         if ent is None or field not in ent:
             raise OutOfSubset(f"no schema for {cls}.{field}")
-        return ent[field]
+        ty = ent[field]
+        return ty[:-4] if ty.endswith('|num') else ty
+
+    def field_union(self, cls, field):
+        """a field declared 'dict:...|num' holds a dict or a number (Task.io)"""
+        return self.spec.entities.get(cls, {}).get(field, '').endswith('|num')
 
     def heap_arr(self, st, cls, field, sort):
         k = (cls, field)
@@ -363,6 +368,9 @@ class EngineBase:
                 d = DictObj(keys, nk, 'ref', vals=z3.Select(self.heap_arr(st, cls, field + '.vals', IntArr), r),
                             vcls=v[4:] if v.startswith('ref:') else None)
             d.frozen = True
+            if self.field_union(cls, field):
+                d.isnum = z3.Select(self.heap_arr(st, cls, field + '.isnum', B), r)
+                d.numval = z3.Select(self.heap_arr(st, cls, field + '.num', R), r)
             return d
         raise OutOfSubset(f"heap read of {cls}.{field}: type {ty}")
 
@@ -410,6 +418,21 @@ class EngineBase:
             val.frozen = True
             return
         if ty.startswith('dict:'):
+            if self.field_union(cls, field):
+                # union field: record whether a number was stored (and which); a dict or None is not a number
+                if isinstance(val, (int, float)) and not isinstance(val, bool):
+                    isn, nv = z3.BoolVal(True), to_real(val)
+                elif isinstance(val, Sym) and val.kind == 'num':
+                    isn, nv = z3.BoolVal(True), to_real(val.t)
+                    val = 0
+                elif isinstance(val, DictObj) and getattr(val, 'isnum', None) is not None:
+                    isn, nv = val.isnum, val.numval
+                else:
+                    isn, nv = z3.BoolVal(False), z3.RealVal(0)
+                a = self.heap_arr(st, cls, field + '.isnum', B)
+                st.heap[(cls, field + '.isnum')] = z3.Store(a, r, isn)
+                a = self.heap_arr(st, cls, field + '.num', R)
+                st.heap[(cls, field + '.num')] = z3.Store(a, r, nv)
             if val is None or isinstance(val, (int, float)):
                 val = self.empty_dict('num' if ty.endswith('->num') else 'any')
             if not isinstance(val, DictObj):
@@ -484,6 +507,8 @@ class EngineBase:
         if isinstance(v, ListObj):
             return v.n > 0
         if isinstance(v, DictObj):
+            if getattr(v, 'isnum', None) is not None:
+                return z3.If(v.isnum, v.numval != 0, v.nk > 0)
             return v.nk > 0
         if isinstance(v, PyList):
             return z3.BoolVal(len(v.items) > 0)
